@@ -37,7 +37,21 @@ def near(v, rng):
     return v ^ (1 << 128)
 
 
+def algebraic_scalar(rng):
+    """a 256-bit value that is special for the scalar-multiplication algorithms underneath (GLV decomposition with eigenvalue lambda = -x^2,
+    base-|x| digits): small multiples of x^2, lambda, |x|^i and their negatives mod r, with offsets 0 / +-1 and in every representative mod r"""
+    XA = O.XA
+    lam = rng.choice([(XA * XA - 1) % R, (-(XA * XA)) % R])      # the two primitive cube roots of unity mod r
+    n = rng.choice([1, 2, 2, 3, 4, 5, 7, rng.randrange(1, 1 << 16), rng.randrange(1, 1 << 62)])
+    v = rng.choice([n * XA * XA, R - n * XA * XA, n * lam % R, (R - n * lam) % R, n * XA, n * XA ** 3, R - n * XA, (n * XA * XA + n * XA) % R])
+    v = (v + rng.choice([0, 0, 0, 1, -1])) % R
+    v += rng.choice([0, 0, R, 2 * R])
+    return v if v < (1 << 256) else v - R
+
+
 def big_id(rng):
+    if rng.random() < 0.35:
+        return algebraic_scalar(rng)
     """an identity placed relative to the fixed points of the reductions identities go through: a multiple of r (or 2^255, 2^256) plus or
     minus an offset of a random magnitude"""
     base = rng.choice([R, 2 * R, 1 << 255, 1 << 256, 0])
@@ -52,6 +66,11 @@ def nudge(v, rng, small):
     if rng.random() < 0.5:
         return (v + rng.choice(small)) % (1 << 256)
     return near(v, rng)
+
+
+_X2 = O.XA * O.XA
+# values that are special for the GLV / base-|x| scalar decompositions underneath every h^id (see algebraic_scalar)
+ALGEBRAIC = [_X2, 2 * _X2, R - _X2, R - 2 * _X2, R - 77 * _X2, _X2 - 1, R - (_X2 - 1), 2 * _X2 + R, R - _X2 + R, 3 * (_X2 - 1) % R, O.XA, O.XA ** 3]
 
 
 def idhex(v):
